@@ -1345,27 +1345,19 @@ def _from_tensordict(cls, tensordict, non_tensordict=None, safe=True):  # noqa: 
         for key in to_add:
             non_tensordict[key] = None
 
-    if not is_compiling():
-        # bypass initialisation. this means we don't incur any overhead creating an
-        # empty tensordict and writing values to it. we can skip this because we already
-        # have a tensordict to use as the underlying tensordict
-        tc = cls.__new__(cls)
-        tc.__dict__.update(
-            {"_tensordict": tensordict, "_non_tensordict": non_tensordict}
-        )
-        # since we aren't calling the dataclass init method, we need to manually check
-        # whether a __post_init__ method has been defined and invoke it if so
-        if hasattr(cls, "__post_init__"):
-            tc.__post_init__()
-        return tc
-    else:
-        # TODO: things that did NOT work: **tensordict, dict(tensordict)
-        kwargs = dict(tensordict.items())
-        kwargs.update(non_tensordict)
-        kwargs["batch_size"] = tensordict.batch_size
-        kwargs["device"] = tensordict.device
-        kwargs["names"] = tensordict._maybe_names()
-        return cls(**kwargs)
+    # bypass initialisation (also under compile: rebuilding the object with ``cls(**kwargs)``
+    # there gave the tensorclass a tensordict of its own -- a lazy stack was densified, the lock
+    # was lost, and writes to ``tensordict`` were no longer seen through the tensorclass).
+    # this means we don't incur any overhead creating an
+    # empty tensordict and writing values to it. we can skip this because we already
+    # have a tensordict to use as the underlying tensordict
+    tc = cls.__new__(cls)
+    tc.__dict__.update({"_tensordict": tensordict, "_non_tensordict": non_tensordict})
+    # since we aren't calling the dataclass init method, we need to manually check
+    # whether a __post_init__ method has been defined and invoke it if so
+    if hasattr(cls, "__post_init__"):
+        tc.__post_init__()
+    return tc
 
 
 def _memmap_(
